@@ -46,7 +46,7 @@ mod verif_replay_f {
 '''
 
 
-def search(repo):
+def _search(repo):
     rc, outp = run_test_module(MODULE, 'verif_replay_f::prefixes', repo, host_file='zeep-lib/src/model/doc.rs')
     res = {'lookups_checked': 0, 'anomalies': [], 'n': 0}
     for line in outp.splitlines():
@@ -62,3 +62,14 @@ def search(repo):
     if res['lookups_checked'] == 0:
         res['error'] = outp[-1500:]
     return res
+
+
+_MEMO = {}
+
+
+def search(repo, *a, **kw):
+    """one run of the harness per check process and tree (the result is shared by all obligations it decides)"""
+    key = (repo, a, tuple(sorted(kw.items())))
+    if key not in _MEMO:
+        _MEMO[key] = _search(repo, *a, **kw)
+    return _MEMO[key]
